@@ -12,6 +12,10 @@ type Gen struct {
 	Params   []string // parameter names that will be supplied
 	NoCalls  bool     // do not generate library calls
 	Faulty   int      // 1 in Faulty calls is FAIL(); 0 = never
+	Wild     int      // C03: 1 in Wild variable references ignores the scoping rules (0 = never)
+	Redecl   int      // C03: 1 in Redecl declarations reuses an existing name (0 = never)
+	Ignore   int      // C03: 1 in Ignore loop variables / LET targets is the ignore variable _
+	LimitVar int      // C03: 1 in LimitVar LIMIT operands is a variable
 	scopes   [][]string
 	fresh    int
 	inSort   int // inside a sort / group key: no calls (comparator call counts are not part of the semantics)
@@ -35,8 +39,27 @@ func (g *Gen) visible() []string {
 	return out
 }
 func (g *Gen) freshName() string {
+	if g.Redecl > 0 && g.fresh > 0 && g.pick(g.Redecl) == 0 {
+		g.count("decl:reused-name")
+		return fmt.Sprintf("x%d", 1+g.pick(g.fresh))
+	}
 	g.fresh++
 	return fmt.Sprintf("x%d", g.fresh)
+}
+
+// wildName: any name the program declares somewhere (before or after this
+// point, in any scope) or never declares.
+func (g *Gen) wildName() string {
+	g.count("ref:wild")
+	return fmt.Sprintf("x%d", 1+g.pick(g.fresh+3))
+}
+
+func (g *Gen) loopVar() string {
+	if g.Ignore > 0 && g.pick(g.Ignore) == 0 {
+		g.count("decl:ignore")
+		return "_"
+	}
+	return g.freshName()
 }
 func (g *Gen) pick(n int) int { return g.R.Intn(n) }
 func (g *Gen) count(k string) { g.Stats[k]++ }
@@ -48,6 +71,9 @@ var keyPool = []string{"a", "b", "c", "k"}
 
 func (g *Gen) Leaf() *E {
 	vis := g.visible()
+	if g.Wild > 0 && g.pick(g.Wild) == 0 {
+		return Var(g.wildName())
+	}
 	switch n := g.pick(12); {
 	case n < 3 && len(vis) > 0:
 		g.count("leaf:var")
@@ -275,8 +301,10 @@ func (g *Gen) For(d int) *For {
 	}
 	g.push()
 	defer g.pop()
-	q.Val = g.freshName()
-	g.declare(q.Val)
+	q.Val = g.loopVar()
+	if q.Val != "_" {
+		g.declare(q.Val)
+	}
 	if !q.While && g.pick(4) == 0 {
 		q.Key = g.freshName()
 		g.declare(q.Key)
@@ -285,9 +313,11 @@ func (g *Gen) For(d int) *For {
 	for i := 0; i < nb; i++ {
 		switch k := g.pick(12); {
 		case k < 3:
-			x := g.freshName()
+			x := g.loopVar()
 			e := g.Expr(d - 1)
-			g.declare(x)
+			if x != "_" {
+				g.declare(x)
+			}
 			q.Body = append(q.Body, Clause{K: "let", Name: x, E: e})
 			g.count("clause:let")
 		case k == 3 && !g.NoCalls:
@@ -320,6 +350,15 @@ func (g *Gen) For(d int) *For {
 			if g.pick(6) == 0 {
 				c.Count = Param("n")
 			}
+			if g.LimitVar > 0 && g.pick(g.LimitVar) == 0 {
+				vis := g.visible()
+				if len(vis) > 0 && g.pick(3) > 0 {
+					c.Count = Var(vis[g.pick(len(vis))])
+				} else {
+					c.Count = Var(g.wildName())
+				}
+				g.count("limit:var")
+			}
 			q.Body = append(q.Body, c)
 			g.count("clause:limit")
 		default:
@@ -340,6 +379,9 @@ func (g *Gen) For(d int) *For {
 
 func (g *Gen) filterExpr(d int) *E {
 	vis := g.visible()
+	if len(vis) == 0 {
+		return g.Expr(d - 1)
+	}
 	v := Var(vis[len(vis)-1])
 	switch g.pick(4) {
 	case 0:
@@ -352,6 +394,9 @@ func (g *Gen) filterExpr(d int) *E {
 
 func (g *Gen) sortKey(d int) *E {
 	vis := g.visible()
+	if len(vis) == 0 {
+		return g.Leaf()
+	}
 	v := Var(vis[g.pick(len(vis))])
 	switch g.pick(4) {
 	case 0:
@@ -414,9 +459,11 @@ func (g *Gen) Program() *Program {
 			p.Stmts = append(p.Stmts, Stmt{E: g.call(g.MaxDepth)})
 			continue
 		}
-		x := g.freshName()
+		x := g.loopVar()
 		e := g.Expr(g.MaxDepth - 1)
-		g.declare(x)
+		if x != "_" {
+			g.declare(x)
+		}
 		p.Stmts = append(p.Stmts, Stmt{Let: true, Name: x, E: e})
 	}
 	if g.pick(2) == 0 {
